@@ -1,4 +1,4 @@
-\* pathdb, repaired design (both switches TRUE), exhaustive: 2 tries (contract + one storage trie), H = 2
+\* pathdb, repaired design (all switches TRUE), exhaustive: 2 tries (contract + one storage trie), H = 2
 \* (4 keys, 7 paths per trie), <= 3 updates (forks allowed), 1 restart, Cap keeping 1 or 2 layers, Commit,
 \* journal, reopen, crash inside Commit, lazy and eager write buffer
 CONSTANTS
@@ -8,7 +8,7 @@ CONSTANTS
   MaxUpdates = 3
   MaxRestarts = 1
   CapKeeps = {1, 2}
-  UpdKeys = 3
+  UpdKeys = 2
   AutoCap = 0
   FixJournalStale = TRUE
   FixDiskRoot = TRUE
